@@ -68,13 +68,13 @@ FailKindOf(g, n) == IF \E f \in Range(g.fail) : f.n = n THEN (CHOOSE f \in Range
 NoRef == [grp |-> "", has |-> FALSE, res |-> "", ex |-> {}]
 \* aborted: nodes whose attempt asked for interrupt-and-rerun in the current call; redo: the same after the interrupt was returned
 \* (they execute once more after the resume); execs holds <<node, input, attempt>>
-Idle == [g |-> [id |-> "", grp |-> ""], begun |-> {}, done |-> {}, failed |-> {}, aborted |-> {}, redo |-> {}, execs |-> {},
+Idle == [g |-> [id |-> "", grp |-> ""], begun |-> {}, done |-> {}, failed |-> {}, aborted |-> {}, redo |-> {}, arep |-> {}, execs |-> {},
          st |-> "idle", bad |-> "", ref |-> NoRef]
 Bad(S, why) == [S EXCEPT !.st = "skip", !.bad = why]
 Running(S) == S.begun \ (S.done \cup S.failed \cup S.aborted \cup S.redo)
 RerunNodes(g) == Range(g.rerun)
 
-OnCase(S, e) == [g |-> e, begun |-> {}, done |-> {}, failed |-> {}, aborted |-> {}, redo |-> {}, execs |-> {}, st |-> "run", bad |-> "",
+OnCase(S, e) == [g |-> e, begun |-> {}, done |-> {}, failed |-> {}, aborted |-> {}, redo |-> {}, arep |-> {}, execs |-> {}, st |-> "run", bad |-> "",
                  ref |-> IF e.grp = S.ref.grp THEN S.ref ELSE [NoRef EXCEPT !.grp = e.grp]]
 
 OnExec(S, e) == LET g == S.g  n == e.n IN
@@ -90,13 +90,17 @@ OnExec(S, e) == LET g == S.g  n == e.n IN
 OnAbort(S, e) == IF e.n \notin Running(S) THEN Bad(S, "abort-of-node-not-running")
                  ELSE IF e.n \notin RerunNodes(S.g) \/ \E x \in S.execs : x[1] = e.n /\ x[3] = 2 THEN Bad(S, "unconfigured-abort")
                  ELSE [S EXCEPT !.aborted = S.aborted \cup {e.n}]
-\* the call returned an interrupt: the run loop has waited for everything it started (waitAll, batch and eager alike), every
-\* aborted attempt is reported for rerun and nothing else
+\* the call returned an interrupt (rerun request, or a static interrupt-after / interrupt-before mark was hit): the run loop has
+\* waited for EVERYTHING it started (waitAll, batch and eager alike) -- nothing is running, every aborted attempt is reported for
+\* rerun, every finished interrupt-after node is reported
 OnInterrupt(S, e) ==
-  IF S.aborted = {} THEN Bad(S, "interrupt-without-aborted-execution")
+  LET afterDue == (Range(S.g.after) \cap S.done) \ S.arep IN          \* interrupt-after nodes finished and not yet reported
+  IF S.aborted = {} /\ afterDue = {} /\ e.before = <<>> THEN Bad(S, "interrupt-without-cause")
   ELSE IF Running(S) # {} THEN Bad(S, "interrupt-returned-while-node-running")
   ELSE IF Range(e.rerun) # S.aborted THEN Bad(S, "aborted-execution-not-reported-for-rerun")
-  ELSE [S EXCEPT !.redo = S.redo \cup S.aborted, !.aborted = {}, !.st = "interrupted"]
+  ELSE IF Range(e.after) # afterDue THEN Bad(S, "finished-after-node-not-reported")   \* a completion that was not collected is missing here
+  ELSE IF ~(Range(e.before) \subseteq Range(S.g.before) \ S.begun) THEN Bad(S, "before-list-names-a-started-node")
+  ELSE [S EXCEPT !.redo = S.redo \cup S.aborted, !.aborted = {}, !.arep = S.arep \cup afterDue, !.st = "interrupted"]
 OnResume(S, e) == [S EXCEPT !.st = "run"]
 
 OnDone(S, e) == IF e.n \notin Running(S) THEN Bad(S, "done-of-node-not-running")
